@@ -132,6 +132,29 @@ def call_insertions(it, fn, a):
 
 def gen_sequence(rng):
     st = _env()
+    if rng.random() < 0.2:
+        # a class with an exactly-one group, given none of the group's members but one as an EMPTY data element
+        from props.aggclasses import declared_mutexes
+        from xengine import aggx
+        cands = [c for c in st["classes"] if declared_mutexes(c)[1]]
+        for _ in range(20):
+            C = rng.choice(cands)
+            g = rng.choice(declared_mutexes(C)[1])
+            elems = [m_ for m_ in g if m_ in C.spec and aggx.kind(st["e"], C.spec[m_]) == "element"]
+            if not elems:
+                continue
+            try:
+                tree = rich_tree(C, rng)
+            except Exception:
+                continue
+            kids = [k_ for k_ in tree if k_.tag.lower() not in g]
+            victim = ET.Element(rng.choice(elems).upper()); victim.set("emptytext", "1")
+            order = {n: i for i, n in enumerate(C.spec)}
+            kids.append(victim)
+            kids.sort(key=lambda x: order.get(x.tag.lower(), 99))
+            root = ET.Element(C.__name__)
+            root.extend(copy.deepcopy(k_) for k_ in kids)
+            return [ET.tostring(root).decode()]
     for _ in range(50):
         C = rng.choice(st["classes"])
         try:
@@ -148,6 +171,14 @@ def gen_sequence(rng):
             seq.sort(key=lambda x: order.get(x.tag.lower(), 99))
         if rng.random() < 0.4:
             seq.insert(rng.randint(0, len(seq)), unknown_child(rng, C))
+        if rng.random() < 0.3:
+            # a hand-built tree may hold a leaf whose text is the empty string (not None): marked with an attribute,
+            # because serializing and re-parsing would turn it into None
+            leaves = [x for x in seq if len(x) == 0]
+            if leaves:
+                victim = rng.choice(leaves)
+                victim.text = None
+                victim.set("emptytext", "1")
         root = ET.Element(C.__name__)
         root.extend(seq)
         return [ET.tostring(root).decode()]
@@ -157,6 +188,9 @@ def gen_sequence(rng):
 def call_sequence(it, fn, a):
     from contracts.spec import aggregate as SA
     root = ET.fromstring(a[0])
+    for ch in root.iter():
+        if ch.attrib.pop("emptytext", None):
+            ch.text = ""
     C = getattr(models, root.tag)
     groomed = C.groom(copy.deepcopy(root))
     ref = SA.fold(C, list(groomed)) if len(root) else ("ok", [], {})
@@ -173,6 +207,9 @@ def call_sequence(it, fn, a):
         # the reference accepts the sequence; the constructor may still refuse (required child missing, mutex, converter)
         return ("agree", "constructor refused")
     inst = real[1]
+    bad = SA.instance_violations(inst)
+    if bad:
+        return ("instance-violates-its-class", "; ".join(bad) + " in " + ET.tostring(root).decode()[:300])
     kw = {k for k, v in ref[2].items() if v is not None}
     got = {n for n in inst.spec_no_listaggregates if not isinstance(inst.spec[n], models.base.Types.Unsupported) and getattr(inst, n) is not None}
     if got != kw or len(inst) != len([v for v in ref[1] if v is not None]) + len([v for v in ref[1] if v is None]):
@@ -250,6 +287,12 @@ def call_flat_access(it, fn, a):
         path, holder = occ[0]
         stored = holder.__dict__.get(attr)
         if stored is None:
+            # defined below, just not set: the flat read says None like the full path does - it is not an undefined name
+            try:
+                if getattr(x, attr) is not None or not hasattr(x, attr):
+                    problems.append(f"{attr}: unset at {'.'.join(path)}, flat read gives {getattr(x, attr, 'AttributeError')!r}")
+            except AttributeError:
+                problems.append(f"{attr}: defined (unset) at {'.'.join(path)}, but the flat read raises AttributeError")
             continue
         if getattr(x, attr) is not stored:
             problems.append(f"{attr}: flat read differs from the value at {'.'.join(path)}")
